@@ -78,3 +78,190 @@ package packet
 //@ lemma leb64_minimal(x u64): all(n, 1, 10, (leb64_len(x) <= n) == (x < uint64(1) << (7*uint64(n)))) && 1 <= leb64_len(x) && leb64_len(x) <= 10
 //@ lemma leb32_lastbyte(x u32): all(k, 0, 5, k < leb32_len(x) ==> ((leb32_byte(x, k) >= 128) == (k < leb32_len(x) - 1))) && (leb32_len(x) > 1 ==> leb32_byte(x, leb32_len(x) - 1) != 0)
 //@ lemma leb64_lastbyte(x u64): all(k, 0, 10, k < leb64_len(x) ==> ((leb64_byte(x, k) >= 128) == (k < leb64_len(x) - 1))) && (leb64_len(x) > 1 ==> leb64_byte(x, leb64_len(x) - 1) != 0)
+
+// ---------------------------------------------------------------- fixed-width field codecs (C06, C09)
+//
+// Every ReadFrom postcondition is stated over the ghost input stream only
+// (destination independence: the prior content of the receiver is arbitrary);
+// every WriteTo postcondition over the ghost sink.
+
+//@ func (Short).WriteTo(v; w) (n, err)
+//@   let wk = sink(w)
+//@   let l0 = old(Wlen(wk))
+//@   ensures Wlen(wk) == l0 + n && 0 <= n && n <= 2                                 [@count]
+//@   ensures err == nil ==> n == 2                                                  [@count]
+//@   ensures all(k, 0, 2, k < n ==> Wout(wk, l0+k) == be16_byte(uint16(v), k))                       [@value]
+//@   ensures Wfail(wk) ==> err != nil                                                [@errprop]
+//@   ensures !Wfail(wk) ==> err == nil                                               [@errprop]
+//@   modifies sink(w)                                                                [@frame]
+
+//@ func (*Short).ReadFrom(v; r) (n, err)
+//@   let s = stream(r)
+//@   let p0 = old(Spos(s))
+//@   ensures n == Spos(s) - p0 && 0 <= n && n <= 2                                  [@count @consume]
+//@   ensures err == nil ==> n == 2 && uint16(*v) == be16(Sinrow(s), p0)                              [@value @filled]
+//@   ensures Sfail(s) ==> err != nil                                                 [@errprop]
+//@   ensures !Sfail(s) ==> err == nil                                                [@errprop]
+//@   modifies *v, stream(r)                                                          [@frame]
+
+//@ func (UnsignedShort).WriteTo(v; w) (n, err)
+//@   let wk = sink(w)
+//@   let l0 = old(Wlen(wk))
+//@   ensures Wlen(wk) == l0 + n && 0 <= n && n <= 2                                 [@count]
+//@   ensures err == nil ==> n == 2                                                  [@count]
+//@   ensures all(k, 0, 2, k < n ==> Wout(wk, l0+k) == be16_byte(uint16(v), k))                       [@value]
+//@   ensures Wfail(wk) ==> err != nil                                                [@errprop]
+//@   ensures !Wfail(wk) ==> err == nil                                               [@errprop]
+//@   modifies sink(w)                                                                [@frame]
+
+//@ func (*UnsignedShort).ReadFrom(v; r) (n, err)
+//@   let s = stream(r)
+//@   let p0 = old(Spos(s))
+//@   ensures n == Spos(s) - p0 && 0 <= n && n <= 2                                  [@count @consume]
+//@   ensures err == nil ==> n == 2 && uint16(*v) == be16(Sinrow(s), p0)                              [@value @filled]
+//@   ensures Sfail(s) ==> err != nil                                                 [@errprop]
+//@   ensures !Sfail(s) ==> err == nil                                                [@errprop]
+//@   modifies *v, stream(r)                                                          [@frame]
+
+//@ func (Int).WriteTo(v; w) (n, err)
+//@   let wk = sink(w)
+//@   let l0 = old(Wlen(wk))
+//@   ensures Wlen(wk) == l0 + n && 0 <= n && n <= 4                                 [@count]
+//@   ensures err == nil ==> n == 4                                                  [@count]
+//@   ensures all(k, 0, 4, k < n ==> Wout(wk, l0+k) == be32_byte(uint32(v), k))                       [@value]
+//@   ensures Wfail(wk) ==> err != nil                                                [@errprop]
+//@   ensures !Wfail(wk) ==> err == nil                                               [@errprop]
+//@   modifies sink(w)                                                                [@frame]
+
+//@ func (*Int).ReadFrom(v; r) (n, err)
+//@   let s = stream(r)
+//@   let p0 = old(Spos(s))
+//@   ensures n == Spos(s) - p0 && 0 <= n && n <= 4                                  [@count @consume]
+//@   ensures err == nil ==> n == 4 && uint32(*v) == be32(Sinrow(s), p0)                              [@value @filled]
+//@   ensures Sfail(s) ==> err != nil                                                 [@errprop]
+//@   ensures !Sfail(s) ==> err == nil                                                [@errprop]
+//@   modifies *v, stream(r)                                                          [@frame]
+
+//@ func (Long).WriteTo(v; w) (n, err)
+//@   let wk = sink(w)
+//@   let l0 = old(Wlen(wk))
+//@   ensures Wlen(wk) == l0 + n && 0 <= n && n <= 8                                 [@count]
+//@   ensures err == nil ==> n == 8                                                  [@count]
+//@   ensures all(k, 0, 8, k < n ==> Wout(wk, l0+k) == be64_byte(uint64(v), k))                       [@value]
+//@   ensures Wfail(wk) ==> err != nil                                                [@errprop]
+//@   ensures !Wfail(wk) ==> err == nil                                               [@errprop]
+//@   modifies sink(w)                                                                [@frame]
+
+//@ func (*Long).ReadFrom(v; r) (n, err)
+//@   let s = stream(r)
+//@   let p0 = old(Spos(s))
+//@   ensures n == Spos(s) - p0 && 0 <= n && n <= 8                                  [@count @consume]
+//@   ensures err == nil ==> n == 8 && uint64(*v) == be64(Sinrow(s), p0)                              [@value @filled]
+//@   ensures Sfail(s) ==> err != nil                                                 [@errprop]
+//@   ensures !Sfail(s) ==> err == nil                                                [@errprop]
+//@   modifies *v, stream(r)                                                          [@frame]
+
+//@ func (Float).WriteTo(v; w) (n, err)
+//@   let wk = sink(w)
+//@   let l0 = old(Wlen(wk))
+//@   ensures Wlen(wk) == l0 + n && 0 <= n && n <= 4                                 [@count]
+//@   ensures err == nil ==> n == 4                                                  [@count]
+//@   ensures all(k, 0, 4, k < n ==> Wout(wk, l0+k) == be32_byte(bits(v), k))                       [@value]
+//@   ensures Wfail(wk) ==> err != nil                                                [@errprop]
+//@   ensures !Wfail(wk) ==> err == nil                                               [@errprop]
+//@   modifies sink(w)                                                                [@frame]
+
+//@ func (*Float).ReadFrom(v; r) (n, err)
+//@   let s = stream(r)
+//@   let p0 = old(Spos(s))
+//@   ensures n == Spos(s) - p0 && 0 <= n && n <= 4                                  [@count @consume]
+//@   ensures err == nil ==> n == 4 && bits(*v) == be32(Sinrow(s), p0)                              [@value @filled]
+//@   ensures Sfail(s) ==> err != nil                                                 [@errprop]
+//@   ensures !Sfail(s) ==> err == nil                                                [@errprop]
+//@   modifies *v, stream(r)                                                          [@frame]
+
+//@ func (Double).WriteTo(v; w) (n, err)
+//@   let wk = sink(w)
+//@   let l0 = old(Wlen(wk))
+//@   ensures Wlen(wk) == l0 + n && 0 <= n && n <= 8                                 [@count]
+//@   ensures err == nil ==> n == 8                                                  [@count]
+//@   ensures all(k, 0, 8, k < n ==> Wout(wk, l0+k) == be64_byte(bits(v), k))                       [@value]
+//@   ensures Wfail(wk) ==> err != nil                                                [@errprop]
+//@   ensures !Wfail(wk) ==> err == nil                                               [@errprop]
+//@   modifies sink(w)                                                                [@frame]
+
+//@ func (*Double).ReadFrom(v; r) (n, err)
+//@   let s = stream(r)
+//@   let p0 = old(Spos(s))
+//@   ensures n == Spos(s) - p0 && 0 <= n && n <= 8                                  [@count @consume]
+//@   ensures err == nil ==> n == 8 && bits(*v) == be64(Sinrow(s), p0)                              [@value @filled]
+//@   ensures Sfail(s) ==> err != nil                                                 [@errprop]
+//@   ensures !Sfail(s) ==> err == nil                                                [@errprop]
+//@   modifies *v, stream(r)                                                          [@frame]
+
+// readByte: one byte, through io.ByteReader when available (decided by a VC-level case split)
+//@ func readByte(r) (n, b, err)
+//@   let s = stream(r)
+//@   let p0 = old(Spos(s))
+//@   ensures err == nil ==> n == 1 && Spos(s) == p0 + 1 && b == Sin(s, p0)            [@value @count]
+//@   ensures Spos(s) >= p0 && Spos(s) <= p0 + 1                                      [@consume]
+//@   ensures Sfail(s) ==> err != nil                                                 [@errprop]
+//@   ensures !Sfail(s) ==> err == nil                                                [@errprop]
+//@   modifies stream(r)                                                              [@frame]
+
+//@ func (Boolean).WriteTo(v; w) (n, err)
+//@   let wk = sink(w)
+//@   let l0 = old(Wlen(wk))
+//@   ensures Wlen(wk) == l0 + n && 0 <= n && n <= 1                                  [@count]
+//@   ensures err == nil ==> n == 1                                                   [@count]
+//@   ensures n == 1 ==> Wout(wk, l0) == ite(v, uint8(1), uint8(0))                                 [@value]
+//@   ensures Wfail(wk) ==> err != nil                                                [@errprop]
+//@   ensures !Wfail(wk) ==> err == nil                                               [@errprop]
+//@   modifies sink(w)                                                                [@frame]
+
+//@ func (*Boolean).ReadFrom(v; r) (n, err)
+//@   let s = stream(r)
+//@   let p0 = old(Spos(s))
+//@   ensures err == nil ==> n == 1 && Spos(s) == p0 + 1 && *v == (Sin(s, p0) != 0)  [@value @count @consume]
+//@   ensures Spos(s) >= p0 && Spos(s) <= p0 + 1                                      [@consume]
+//@   ensures Sfail(s) ==> err != nil                                                 [@errprop]
+//@   ensures !Sfail(s) ==> err == nil                                                [@errprop]
+//@   modifies *v, stream(r)                                                          [@frame]
+
+//@ func (Byte).WriteTo(v; w) (n, err)
+//@   let wk = sink(w)
+//@   let l0 = old(Wlen(wk))
+//@   ensures Wlen(wk) == l0 + n && 0 <= n && n <= 1                                  [@count]
+//@   ensures err == nil ==> n == 1                                                   [@count]
+//@   ensures n == 1 ==> Wout(wk, l0) == uint8(v)                                     [@value]
+//@   ensures Wfail(wk) ==> err != nil                                                [@errprop]
+//@   ensures !Wfail(wk) ==> err == nil                                               [@errprop]
+//@   modifies sink(w)                                                                [@frame]
+
+//@ func (*Byte).ReadFrom(v; r) (n, err)
+//@   let s = stream(r)
+//@   let p0 = old(Spos(s))
+//@   ensures err == nil ==> n == 1 && Spos(s) == p0 + 1 && uint8(*v) == Sin(s, p0)  [@value @count @consume]
+//@   ensures Spos(s) >= p0 && Spos(s) <= p0 + 1                                      [@consume]
+//@   ensures Sfail(s) ==> err != nil                                                 [@errprop]
+//@   ensures !Sfail(s) ==> err == nil                                                [@errprop]
+//@   modifies *v, stream(r)                                                          [@frame]
+
+//@ func (UnsignedByte).WriteTo(v; w) (n, err)
+//@   let wk = sink(w)
+//@   let l0 = old(Wlen(wk))
+//@   ensures Wlen(wk) == l0 + n && 0 <= n && n <= 1                                  [@count]
+//@   ensures err == nil ==> n == 1                                                   [@count]
+//@   ensures n == 1 ==> Wout(wk, l0) == uint8(v)                                     [@value]
+//@   ensures Wfail(wk) ==> err != nil                                                [@errprop]
+//@   ensures !Wfail(wk) ==> err == nil                                               [@errprop]
+//@   modifies sink(w)                                                                [@frame]
+
+//@ func (*UnsignedByte).ReadFrom(v; r) (n, err)
+//@   let s = stream(r)
+//@   let p0 = old(Spos(s))
+//@   ensures err == nil ==> n == 1 && Spos(s) == p0 + 1 && uint8(*v) == Sin(s, p0)  [@value @count @consume]
+//@   ensures Spos(s) >= p0 && Spos(s) <= p0 + 1                                      [@consume]
+//@   ensures Sfail(s) ==> err != nil                                                 [@errprop]
+//@   ensures !Sfail(s) ==> err == nil                                                [@errprop]
+//@   modifies *v, stream(r)                                                          [@frame]
